@@ -523,20 +523,25 @@ def r11_client_per_call(chk: Check) -> None:
                     chk.undecided("C06.R11", target, construct, f"unknown decorator `@{decos[0]}`", target.loc())
                 elif rets and all(isinstance(r.value, ast.Call) and isinstance(r.value.func, ast.Name) and r.value.func.id[:1].isupper() for r in rets):
                     chk.ok("C06.R11", target, construct, f"returns {unparse(rets[0].value)}", target.loc(rets[0]))
+                elif rets and all(isinstance(r.value, ast.Name) and local_value(target, r.value.id) and all(isinstance(v_, ast.Call) and isinstance(v_.func, ast.Name) and v_.func.id[:1].isupper() for v_ in local_value(target, r.value.id)) for r in rets):
+                    chk.ok("C06.R11", target, construct, "returns a local bound to a constructor call", target.loc(rets[0]))
                 elif rets and any(isinstance(r.value, (ast.Subscript, ast.Attribute)) or (isinstance(r.value, ast.Name) and not local_value(target, r.value.id)) for r in rets):
                     chk.violation("C06.R11", target, construct, "the factory hands out an object that outlives the call (not constructed in its body)", target.loc(rets[0]))
                 else:
                     chk.undecided("C06.R11", target, construct, "return expression not recognised as a constructor call", target.loc())
     send = P.func("transport/requests.py:RequestsTransport.send")
-    news = [a for a in walk_body(send.node) if isinstance(a, ast.Assign) and unparse(a.value) == "requests.Session()"]
+    news = [a for a in walk_body(send.node) if isinstance(a, ast.Assign) and isinstance(a.value, ast.Call) and last_attr(a.value) == "Session"]
     construct = "RequestsTransport.send: requests.Session() is created inside the call when no session is given"
     if news:
         n += 1
         g = cfg_of(send, "plain")
         guarded = all(known_conditions(g, g.stmt_nodes_containing(a)).get("session is None") is True for a in news)
         chk.decide(guarded, "C06.R11", send, construct, "a session is created even when the caller passed one" if not guarded else "", send.loc(news[0]))
+    elif any("session" in unparse(a.targets[0]).lower() and not isinstance(a.value, ast.Constant) for a in walk_body(send.node) if isinstance(a, ast.Assign)):
+        n += 1
+        chk.violation("C06.R11", send, construct, "no session is constructed in the call: the session (and its cookie jar) comes from somewhere that outlives the call", send.loc())
     else:
-        chk.violation("C06.R11", send, construct, "no per-call session: the session (and its cookie jar) comes from somewhere that outlives the call", send.loc())
+        chk.undecided("C06.R11", send, construct, "how the session is obtained was not recognised", send.loc())
     if n < 3:
         chk.undecided("C06.R11", "<discovery>", f"sites={n}", "fewer client factories than confirmed by hand")
 
